@@ -271,6 +271,16 @@ func c12GenBytes(rng *rand.Rand, tier string, emit func(string)) {
 		"e,s1 aacc:ggtt acgtacgt ttgattga F\ne,s2 aacg:ggtt acgtacgt ttgattga F\n",
 		"e s1 aacc:ggtt acgtacgt ttgattga F,x\ne s2 aacg:ggtt acgtacgt ttgattga F,y\n",
 		"e s1 aacc:ggtt acgtacgt ttgattga F @ a=vb,c\ne s2 aacg:ggtt acgtacgt ttgattga F @ a=vb,d\n",
+		// the detectors attached to the root of the mimetype tree by the sequence reader: FASTQ (`@x…` on two lines, or a line
+		// starting with `+`), FASTA, EMBL, GenBank, ecoPCR look-alikes; "binary data bytes" (VT) with constant / varying widths
+		"@param,spacer,3\n" + hdr, "@param,spacer,3\n" + hdr[:len(hdr)-1], "@param,spacer,3\n" + hdr + r1, "@param,a,b\n@param,c,d\n",
+		"@param,spacer,3\n" + hdr + "+,s1,aacc:ggtt,acgtacgt,ttgattga\n", "@param,spacer,3\n" + hdr + r1 + "+,s2,aacg:ggtt,acgtacgt,ttgattga\n",
+		"@ param,spacer,3\n" + hdr + r1, "@\n" + hdr, ">experiment,sample,sample_tag,forward_primer,reverse_primer\n" + r1 + r2,
+		"> experiment,sample,sample_tag,forward_primer,reverse_primer\n" + r1 + r2, "ID   ,sample,sample_tag,forward_primer,reverse_primer\n" + r1,
+		"LOCUS       ,b\nc,d\n", "#@ecopcr-v2\n" + hdr + r1 + r2, "#@ecopcr\n" + hdr + r1 + r2,
+		hdr + "e,s1,\vaacc:ggtt,acgtacgt,ttgattga\n", "@param,spacer,3\n" + hdr + "e,s1,\vaacc:ggtt,acgtacgt,ttgattga\n" + r2,
+		hdr + "e,s1,\x01aacc:ggtt,acgtacgt,ttgattga\n", "@param,spacer,3\n" + hdr + "e,s1,aacc:ggtt,acgtacgt,ttgattga\x1f\n" + r2,
+		"e s1 aacc:ggtt acgtacgt ttgattga F\v\ne s2 aacg:ggtt acgtacgt ttgattga F\n",
 	} {
 		hb(t)
 	}
